@@ -3,7 +3,7 @@
 
 Gen/Copy.lean:
   tagInitParams        parameters of Tag.__init__ (without self), in order
-  copySelfArgs         (parameter of Tag.__init__, source text of the argument) for every argument of the
+  copySelfArgs         (parameter of Tag.__init__, source text of the argument), sorted by parameter, for every argument of the
                        `type(self)(...)` call in Tag.copy_self, positional ones resolved against the signature
   copySelfSetattrs     the attribute names of the `for attr in (...): setattr(clone, attr, getattr(self, attr))` loop
   soupCopySelfArgs     source text of the arguments of the `type(self)(...)` call in BeautifulSoup.copy_self
@@ -41,12 +41,14 @@ def gen_copy():
         args.append((params[i], ast.unparse(a)))
     for kw in call.keywords:
         args.append((kw.arg, ast.unparse(kw.value)))
+    args.sort()          # by parameter name: positional/keyword style and order are not the model's business
     setattrs = []
     for n in ast.walk(f):
         if isinstance(n, ast.For) and isinstance(n.iter, (ast.Tuple, ast.List)):
             body_src = ast.unparse(n)
             if "setattr(clone" in body_src and "getattr(self" in body_src:
                 setattrs += [e.value for e in n.iter.elts if isinstance(e, ast.Constant)]
+    setattrs.sort()
     g = _fn_ast(BeautifulSoup.copy_self)
     scall = _ctor_call(g)
     sargs = [ast.unparse(a) for a in scall.args] + [f"{k.arg}={ast.unparse(k.value)}" for k in scall.keywords]
